@@ -33,6 +33,17 @@ def main():
         tb = traceback.format_exc()
         rep.violation("harness", {"traceback": tb}, "correspondence run raised %r no-failing-input-found" % (e,))
         sys.stderr.write(tb)
+    if not rep.proof.get("ok") and not rep.violations:
+        # a proof obligation broke and the correspondence found nothing: search further for a concrete failing input before giving up
+        # (two more generator seeds at this tier; only ever runs on a tree whose obligations no longer check)
+        for extra in (1, 2):
+            try:
+                rep.extra.setdefault("extended_search_seeds", []).append(seed + extra)
+                mod.run(rep, tier, seed + extra, pa)
+            except BaseException as e:
+                rep.violation("harness", {"error": repr(e)}, "extended search raised %r no-failing-input-found" % (e,))
+            if rep.violations:
+                break
     rc = rep.finish(mod.RULE, mod.TRUSTED_BASE, mod.ASSUMPTIONS)
     sys.stdout.flush()
     os._exit(rc)
